@@ -224,7 +224,7 @@ non-trivial = >= 2 hops with a non-empty body, or a hop that changes authority o
             BodySpec::None => "body:none",
             BodySpec::Text(_) => "body:text",
             BodySpec::Bytes(_) => "body:bytes",
-            BodySpec::File(_) => "body:file",
+            BodySpec::File(..) => "body:file",
             BodySpec::Json(_) => "body:json",
             BodySpec::JsonStreaming(_) => "body:json_streaming",
             BodySpec::Form(_) => "body:form",
